@@ -153,7 +153,7 @@ PROPS["C04"] = {
 }
 
 PROPS["C05"] = {
-    "lean": ["WsVerif.Props.C05", "WsVerif.Bridge.C04"],
+    "lean": ["WsVerif.Props.C05", "WsVerif.Props.C05Ext", "WsVerif.Bridge.C04"],
     "rule": "Every valid prefix of 0..2 complete units (optionally followed by an open fragmented message, with interleaved pong) extended by "
             "every offending frame of the alphabet (reserved data/control opcode, control > 125, non-final control, RSV without extension, RSV on "
             "control, wrong masking on data and on control, new data frame while fragmented, continuation while idle, wrongly masked "
@@ -208,7 +208,7 @@ PROPS["C08"] = {
 }
 
 PROPS["C13"] = {
-    "lean": ["WsVerif.Props.C13", "WsVerif.Bridge.C13"],
+    "lean": ["WsVerif.Props.C13", "WsVerif.Props.C05Ext", "WsVerif.Bridge.C13"],
     "rule": "MessageState.SetBits / UnsetBits (+ SetBit / UnsetBit / IsCompressed) on all compressed x Fin x RSV(0..7) x OpCode(0..15); "
             "writer sequences of compressed / uncompressed messages with SetExtensions switches x 5 buffer sizes x both sides (also in the "
             "C06 random sequences); reader with the extension attached on a fragmented message with every RSV pattern on the first frame, the "
